@@ -2032,6 +2032,8 @@ fn op_serde(rest: &[&str]) -> Result<String, String> {
                 match GenericPurl::<T>::from_str(s) {
                     Err(e) => e.full(),
                     Ok(p) => {
+                        // a serialisation that fails part-way (error, panic) comes first: the next one must not notice
+                        recser::fail(&p);
                         let j = serde_json::to_string(&p).unwrap();
                         let v: serde_json::Value = serde_json::from_str(&j).unwrap();
                         let as_str = v.as_str().map(|x| x.to_string());
@@ -2077,7 +2079,8 @@ fn op_serde(rest: &[&str]) -> Result<String, String> {
 mod recser {
     use serde::ser::{Impossible, Serialize, Serializer};
     type E = serde::de::value::Error;
-    pub struct Rec(pub bool);
+    /// (human-readable?, failure mode: 0 = records, 1 = every method fails with an error, 2 = `serialize_str` panics)
+    pub struct Rec(pub bool, pub u8);
     fn hexs(b: &[u8]) -> String {
         b.iter().map(|x| format!("{:02x}", x)).collect()
     }
@@ -2098,7 +2101,11 @@ mod recser {
             serialize_u8(u8), serialize_u16(u16), serialize_u32(u32), serialize_u64(u64), serialize_f32(f32), serialize_f64(f64),
             serialize_char(char));
         fn serialize_str(self, v: &str) -> Result<String, E> {
-            Ok(format!("str:{}", hexs(v.as_bytes())))
+            match self.1 {
+                0 => Ok(format!("str:{}", hexs(v.as_bytes()))),
+                1 => Err(serde::ser::Error::custom("sink closed")),
+                _ => panic!("sink panicked"),
+            }
         }
         fn serialize_bytes(self, v: &[u8]) -> Result<String, E> {
             Ok(format!("bytes:{}", hexs(v)))
@@ -2149,8 +2156,15 @@ mod recser {
             self.0
         }
     }
+    /// a serialisation that FAILS (error, then panic) — what follows on the same thread must not be affected by it
+    pub fn fail<X: Serialize>(x: &X) {
+        let _ = x.serialize(Rec(true, 1));
+        let _ = std::panic::catch_unwind(std::panic::AssertUnwindSafe(|| {
+            let _ = x.serialize(Rec(true, 2));
+        }));
+    }
     pub fn record<X: Serialize>(x: &X, human: bool) -> String {
-        match x.serialize(Rec(human)) {
+        match x.serialize(Rec(human, 0)) {
             Ok(s) => s,
             Err(e) => format!("err:{}", hexs(e.to_string().as_bytes())),
         }
